@@ -161,6 +161,10 @@ func scenarios(tier string) (two, three []*engine.Scenario) {
 	}
 	for i := 0; i < len(mn); i++ {
 		for j := i; j < len(mn); j++ {
+			if tier != "thorough" && len(mn[i]) > 3 && len(mn[j]) > 3 && !(mn[i] == "sSc c" && mn[j] == "spc c") {
+				// quick: of the pairs of two long programs only the mixed stream/packet one (the others are thorough-only)
+				continue
+			}
 			two = append(two, scenario([]program{mn[i], mn[j]}))
 		}
 	}
